@@ -38,7 +38,7 @@ def complete(ex, resumes):
     ex.settle(play=True, resumes=resumes, open_gates=True)
 
 
-def run_reference(case, medium=None, resumes=None, before_complete=None, midstep=False):
+def run_reference(case, medium=None, resumes=None, before_complete=None, midstep=False, hook_ckpts=None):
     """Uninterrupted run; with ``medium`` a checkpoint is taken at every state entry."""
     resumes = DEFAULT_RESUMES if resumes is None else resumes
     out = {}
@@ -51,6 +51,8 @@ def run_reference(case, medium=None, resumes=None, before_complete=None, midstep
             ex.checkpoint('created')
         if midstep and medium is not None:
             install_midstep(ex)
+        if hook_ckpts and medium is not None:
+            install_hook_ckpts(ex, hook_ckpts)
         ex.launch_task()
         if before_complete is not None:
             before_complete(ex)
@@ -76,6 +78,17 @@ def install_midstep(ex, skip_first=False):
                 state['skip'] = False
                 return  # a run restored from a mid-step checkpoint re-enters that step: not a new crash point
             ex.checkpoint('midstep:' + hook[5:])
+
+    ex.world.extra['hook_listener'] = from_hook
+
+
+def install_hook_ckpts(ex, hooks):
+    """Checkpoint from inside lifecycle hooks while CREATED or RUNNING is being left (an application that persists
+    'on leaving a state'): between the return of a step and the entry of whatever comes next."""
+
+    def from_hook(proc, hook, pos):
+        if proc is ex.proc and pos == 'pre' and hook in hooks and proc.state.value in ('created', 'running'):
+            ex.checkpoint('hook:' + hook)
 
     ex.world.extra['hook_listener'] = from_hook
 
